@@ -437,9 +437,34 @@ impl Walker {
 			format!("oid:{}", self.r.oid(ch[1].content, path)?)
 		} else {
 			self.r.walk_generic(ch[1].raw, path, 0)?;
+			if oid == "1.2.840.113549.1.1.10" {
+				self.pss_defaults(&ch[1], path);
+			}
 			"other".to_string()
 		};
 		Ok(json!({"oid": oid, "params": params, "raw": hex(t.raw)}))
+	}
+
+	/// RSASSA-PSS-params (RFC 4055 3.1): every field has a DEFAULT, and DER leaves a field that holds its default out
+	fn pss_defaults(&mut self, t: &Tlv, path: &str) {
+		let Ok(ch) = self.r.children(t, path) else { return };
+		for f in ch {
+			if f.class != 2 || !f.constructed {
+				continue;
+			}
+			let c = hex(f.content);
+			let default = match f.num {
+				// sha1Identifier with or without NULL parameters
+				0 => c == "300906052b0e03021a0500" || c == "300706052b0e03021a",
+				1 => c == "301606092a864886f70d010108300906052b0e03021a0500" || c == "301406092a864886f70d010108300706052b0e03021a",
+				2 => c == "020114",
+				3 => c == "020101",
+				_ => false,
+			};
+			if default {
+				self.r.issues.push(format!("{}: RSASSA-PSS-params field [{}] encodes its DEFAULT value", path, f.num));
+			}
+		}
 	}
 
 	fn spki(&mut self, t: &Tlv, path: &str) -> R<Value> {
